@@ -14,11 +14,23 @@ LEVEL = ("For every modelled network-facing decoder/handler (one Lean function p
          "The models are tied to the real Go code by differential fuzzing on every run: packets from the repository's own "
          "serializers, every length field set to every boundary value, truncation at every offset, random bytes, each "
          "stateful handler in every automaton state; result enum and canonical parsed summary must be identical, and a "
-         "panic or a hang of the real code is a monitor verdict whatever the model says. PARTIAL: library decoders "
-         "(encoding/json in HA sync, regexp/bufio in the NAT ALG, insomniacslk dhcpv4.FromBytes, layeh radius.Parse) are "
-         "not modelled; their bng wrappers are fuzzed only (trace lines `lib-...`, judged by the panic/hang monitors). "
-         "Not modelled at all: the DHCPv6 server's per-message handlers (dhcpv6/server.go; only the protocol.go parsers "
-         "they call are), the full DHCPv4 slow path, radius/client.go (layeh).")
+         "panic or a hang of the real code is a monitor verdict whatever the model says. "
+         "PARTIAL - FUZZED ONLY, NOT MODELLED (trace lines `lib-...`; the model side echoes the observation, only the "
+         "panic/hang monitors judge them): the NAT ALG (regexp/bufio; FTP and SIP, both directions; the ALG is not wired "
+         "into any production path); dhcpv4.FromBytes + parseOption82; layeh radius.Parse; pkg/radius/client.go "
+         "Authenticate/SendAccounting response handling behind a scripted loopback RADIUS server (signed answers of every "
+         "code with well- and ill-sized attributes, unsigned/truncated datagrams); ha.DecodeSyncMessage and "
+         "pkg/ha/sync.go handleSSEData (decode and apply, in sequence on one standby); the DHCPv6 server's dispatcher and "
+         "per-message handlers both stateless and in sequence on ONE server (Solicit -> Request, then mutated "
+         "Renew/Rebind/Release/Decline/Confirm/Information-Request of the same DUID, the lease re-installed before each); "
+         "a concurrent stress of the DHCPv4 slow-path handler (6 goroutines + the lease cleanup loop, recover per goroutine; "
+         "not run under -race). "
+         "NEVER DRIVEN by this check: the raw-socket/UDP receive loops themselves (pppoe receiveLoop Ethernet framing, "
+         "dhcpv6 receiveLoop, dhcp server4) - their bodies are reached through the hooks; ha performFullSync's HTTP/JSON "
+         "body handling and the active side's HTTP handlers; pkg/ha/protocol.go beyond DecodeSyncMessage; ztp's DHCP client "
+         "exchange (only parseVendorOptions); pkg/pppoe keepalive/teardown managers beyond ParseEchoPacket/ParsePADT; the "
+         "PPPoE server with a RADIUS client or an address pool configured; CHAP with a RADIUS client; the full DHCPv4 slow "
+         "path single-threaded (owned by C02).")
 ASSUME = [
     "a decoder's input slice has cap == len (the harness clips it); in production handleDiscovery/handleSession get "
     "buf[14:n] of a 1522-byte buffer, where an unchecked length would read stale bytes instead of panicking - the "
